@@ -45,9 +45,9 @@ type arrCopy struct {
 
 type walkInfo struct {
 	x, y    cmpKey
-	covers  bool
-	how     string
-	exitRet *ssa.Return
+	covers bool
+	how    string
+	exit   *ssa.BasicBlock
 }
 
 // addrKey: addr is the address of a field (path) of s[i] or s[j].
@@ -417,15 +417,8 @@ func (lc *lessCtx) recogniseWalk(h *ssa.BasicBlock) *walkInfo {
 	if body.Succs[1] != h && !(len(body.Succs[1].Succs) == 1 && body.Succs[1].Succs[0] == h) {
 		return nil
 	}
-	// all bytes equal: false
-	exitRet, ok := lastInstr(h.Succs[1]).(*ssa.Return)
-	if !ok || len(exitRet.Results) != 1 {
-		return nil
-	}
-	if v, ok := constBool(exitRet.Results[0]); !ok || v {
-		return nil
-	}
-	w := &walkInfo{x: x, y: y, exitRet: exitRet}
+	// all bytes equal: evaluation continues at the loop's exit (return false, or the next key)
+	w := &walkInfo{x: x, y: y, exit: h.Succs[1]}
 	w.covers = init == nx-1 && lowest == 0
 	w.how = fmt.Sprintf("bytes %d down to %d of a %d-byte hash are compared", init, lowest, nx)
 	return w
@@ -504,7 +497,25 @@ func (lc *lessCtx) evalBool(v ssa.Value, o ordering, prev, cur *ssa.BasicBlock, 
 			}
 		}
 	case *ssa.BinOp:
-		// bytes.Compare(a, b) <op> k
+		// bytes.Compare(a, b) <op> k, or mirrored: k <op> bytes.Compare(a, b)
+		if c, ok := x.Y.(*ssa.Call); ok && staticCalleeIs(&c.Call, "bytes.Compare") {
+			if _, isK := constInt(x.X); isK {
+				mirror := map[token.Token]token.Token{token.EQL: token.EQL, token.NEQ: token.NEQ, token.LSS: token.GTR, token.GTR: token.LSS, token.LEQ: token.GEQ, token.GEQ: token.LEQ}
+				if mop, ok := mirror[x.Op]; ok {
+					k, _ := constInt(x.X)
+					a, ok1 := lc.valKey(c.Call.Args[0], c.Block())
+					b, ok2 := lc.valKey(c.Call.Args[1], c.Block())
+					if ok1 && ok2 {
+						if s, name, ok := lc.relOf(o, a, b); ok {
+							used[name] = true
+							if r, ok := cmpHolds(mop, s, int(k)); ok {
+								return r, nil
+							}
+						}
+					}
+				}
+			}
+		}
 		if c, ok := x.X.(*ssa.Call); ok && staticCalleeIs(&c.Call, "bytes.Compare") {
 			k, okK := constInt(x.Y)
 			a, ok1 := lc.valKey(c.Call.Args[0], c.Block())
@@ -560,7 +571,11 @@ func (lc *lessCtx) run(o ordering, used map[string]bool) (bool, *evalErr) {
 				return false, &evalErr{"the byte-wise walk compares different fields"}
 			}
 			used[name] = true
-			return s < 0, nil
+			if s != 0 {
+				return s < 0, nil
+			}
+			prev, cur = cur, w.exit
+			continue
 		}
 		visited[cur]++
 		if visited[cur] > 1 {
